@@ -56,6 +56,9 @@ pub fn idiv(left: &BigInt, right: &BigInt, field: &BigInt) -> Result<BigInt, Ari
 pub fn mod_op(left: &BigInt, right: &BigInt, field: &BigInt) -> Result<BigInt, ArithmeticError> {
     let left = modulus(left, field);
     let right = modulus(right, field);
+    if right == BigInt::from(0) {
+        return Err(ArithmeticError::DivisionByZero);
+    }
     Ok(modulus(&left, &right))
 }
 pub fn pow(base: &BigInt, exp: &BigInt, field: &BigInt) -> BigInt {
